@@ -5,6 +5,7 @@ import TantivyModel.Model.AggExtStats
 Line protocol of the C14 model (sums are exact integers: `M := Int`).
 
   C14 spec   <req> <parts>   evalAgg over all documents of all parts
+  C14 specpv <req> <parts>   evalAggPV (per-value direct computation) over all documents of all parts
   C14 whole  <req> <parts>   finalize (collect all documents)
   C14 merged <req> <parts>   finalize (mergeFruits (parts.map collectSeg))   (with segment truncation)
   C14 limit  <n> <req> <parts>   finalizeGuarded n on the merged tree: `ok <res>` | `err <count>`
@@ -155,6 +156,10 @@ def handle : List String → String
   | ["spec", rq, ps] =>
     match parseReqStr rq, parseParts ps with
     | some r, some parts => showRes r (evalAgg Int r parts.flatten)
+    | _, _ => "bad-op"
+  | ["specpv", rq, ps] =>
+    match parseReqStr rq, parseParts ps with
+    | some r, some parts => showRes r (evalAggPV Int r parts.flatten)
     | _, _ => "bad-op"
   | ["whole", rq, ps] =>
     match parseReqStr rq, parseParts ps with
